@@ -45,6 +45,31 @@ type ChainCfg struct {
 	Odd            bool      `json:"odd"`        // artifact names, strip prefix and exclude pattern with commas, spaces, '=', leading '-', quotes, non-ASCII
 	Names          []string  `json:"names"`      // artifact of step i (empty: f<i>.txt)
 	RerunStep      int       `json:"rerun_step"` // 1-based: this step is executed twice by the same functionary (0: none)
+	// directory shapes (empty: the plain default name)
+	WsName        string `json:"ws_name"`        // working directory of run / record
+	MetaName      string `json:"meta_name"`      // metadata directory (-d ../<name>) when MetaDir
+	WdName        string `json:"wd_name"`        // working directory of verify (the final products)
+	LinkDirName   string `json:"link_dir_name"`  // --link-dir ../<name>
+	LayoutName    string `json:"layout_name"`    // -l ../<name>
+	SymlinkCwd    bool   `json:"symlink_cwd"`    // verify's working directory is entered through a symlink (PWD = the symlink path)
+	TrailingSlash bool   `json:"trailing_slash"` // directory arguments spelled with a trailing slash
+}
+
+func orDefault(s, d string) string {
+	if s == "" {
+		return d
+	}
+	return s
+}
+
+var wsNamePool = []string{"ws 100%", "w[1]s", "ws%s{x}", "wörk"}
+var metaNamePool = []string{"100%", "project_feature%2Fx", "m%s-%d", "m%v%", "meta [1]", "m*?", "{x}ünï", "m\\eta%"}
+var wdNamePool = []string{"work[1]", "w*?", "back\\slash", "100%", "job%2Fx %s%d", "{x} ünï", "sp ace", "[a]b"}
+var linkDirNamePool = []string{"li%nks", "l%s%d %2F", "{x} links", "ünï-links", "links 100%", "li[1]nks", "l*nk?", "li\\nks"}
+var layoutNamePool = []string{"ro%ot.layout", "r [1]*?.layout", "ünï{x}%d.layout", "root%2Fs.layout"}
+
+func (c ChainCfg) oddDirs() bool {
+	return c.WsName != "" || c.MetaName != "" || c.WdName != "" || c.LinkDirName != "" || c.LayoutName != "" || c.TrailingSlash
 }
 
 var stepNames = []string{"fetch", "build", "package", "test-1", "a.b", "a", "step_3", "X", "compile.it", "rel-2.0", "a.b.c"}
@@ -165,6 +190,12 @@ func (c ChainCfg) features() []string {
 	if c.RerunStep > 0 {
 		f = append(f, "rerun")
 	}
+	if c.oddDirs() {
+		f = append(f, "odd-dirs")
+	}
+	if c.SymlinkCwd {
+		f = append(f, "symlink-cwd")
+	}
 	return f
 }
 
@@ -174,7 +205,7 @@ func (c ChainCfg) honestClass() string {
 	k := "verify/honest"
 	for _, f := range c.features() {
 		switch f {
-		case "dsse-links", "dsse-layout", "2signers", "multiline", "cert", "intermediate", "intermediate2", "odd-names", "rerun":
+		case "dsse-links", "dsse-layout", "2signers", "multiline", "cert", "intermediate", "intermediate2", "odd-names", "rerun", "odd-dirs", "symlink-cwd":
 			k += "+" + f
 		}
 	}
@@ -224,6 +255,7 @@ func randomChain(r *lib.Rng) ChainCfg {
 	if r.Chance(1, 2) {
 		c.RerunStep = r.Range(1, n)
 	}
+	randomDirs(r, &c)
 	a := r.Intn(len(poolKeys))
 	c.LayoutSigners = []string{poolKeys[a]}
 	if r.Chance(1, 3) {
@@ -231,6 +263,26 @@ func randomChain(r *lib.Rng) ChainCfg {
 		c.LayoutSigners = append(c.LayoutSigners, poolKeys[b])
 	}
 	return c
+}
+
+func randomDirs(r *lib.Rng, c *ChainCfg) {
+	if r.Chance(1, 4) {
+		c.WsName = r.Pick(wsNamePool)
+	}
+	if r.Chance(1, 2) {
+		c.MetaName = r.Pick(metaNamePool)
+	}
+	if r.Chance(1, 3) {
+		c.WdName = r.Pick(wdNamePool)
+	}
+	if r.Chance(1, 3) {
+		c.LinkDirName = r.Pick(linkDirNamePool)
+	}
+	if r.Chance(1, 4) {
+		c.LayoutName = r.Pick(layoutNamePool)
+	}
+	c.SymlinkCwd = r.Chance(1, 4)
+	c.TrailingSlash = r.Chance(1, 4)
 }
 
 // featuredChains: the histories that failed through the CLI before F6 / F9 / F18
@@ -307,6 +359,33 @@ func featuredChains(r *lib.Rng) []ChainCfg {
 			c.DirMode = true
 			c.Steps[0].Method = "record"
 		}),
+		// directory shapes: '%' and printf verbs in the metadata directory; glob metacharacters, '%', spaces,
+		// braces, non-ASCII in the working directory / link directory / layout path; cwd entered through a symlink
+		mk(func(c *ChainCfg) { c.MetaName = "100%" }),
+		mk(func(c *ChainCfg) {
+			c.MetaName = "project_feature%2Fx"
+			c.Steps[1].Method = "record"
+			c.TrailingSlash = true
+		}),
+		mk(func(c *ChainCfg) {
+			c.MetaName = "m%s-%d"
+			c.Steps[0].Method = "record"
+			c.AbsPaths = true
+			c.WsName = "ws 100%"
+		}),
+		mk(func(c *ChainCfg) { c.WdName = "work[1]" }),
+		mk(func(c *ChainCfg) { c.WdName = "back\\slash"; c.LinkDirName = "li%nks"; c.LayoutName = "ro%ot.layout" }),
+		mk(func(c *ChainCfg) { c.WdName = "[a]b"; c.LinksInCwd = true; c.MetaDir = false }),
+		mk(func(c *ChainCfg) { c.WdName = "w*?"; c.TrailingSlash = true; c.LayoutName = "r [1]*?.layout" }),
+		mk(func(c *ChainCfg) { c.SymlinkCwd = true }),
+		mk(func(c *ChainCfg) {
+			c.SymlinkCwd = true
+			c.WdName = "{x} ünï"
+			c.LinkDirName = "l%s%d %2F"
+			c.Steps[1].Keys = []string{"cert-inter2"}
+		}),
+		mk(func(c *ChainCfg) { c.SymlinkCwd = true; c.AbsPaths = true; c.WdName = "100%" }),
+		mk(func(c *ChainCfg) { c.LinkDirName = "li[1]nks" }), // the library itself globs the link directory: CLI = library is demanded
 		mk(func(c *ChainCfg) {
 			c.Odd = true
 			c.Names = []string{"-lead.txt", "a,b.txt"}
@@ -346,6 +425,7 @@ func systematicChains(r *lib.Rng) []ChainCfg {
 							if r.Bool() {
 								c.RerunStep = r.Range(1, n)
 							}
+							randomDirs(r, &c)
 							for i := 0; i < n; i++ {
 								s := StepCfg{Name: stepNames[(i*2+len(out))%len(stepNames)], Method: method, Keys: []string{kind},
 									DSSE: dsse != 0, Multiline: r.Bool()}
@@ -412,15 +492,18 @@ type world struct {
 func newWorld(bin, workdir string, cfg ChainCfg) *world {
 	root := filepath.Join(workdir, fmt.Sprintf("run-%d-%d", lib.Seed(), cfg.Index))
 	os.RemoveAll(root)
-	for _, d := range []string{"keys", "ws", "meta", "layouts"} {
+	for _, d := range []string{"keys", orDefault(cfg.WsName, "ws"), orDefault(cfg.MetaName, "meta"), "layouts"} {
 		os.MkdirAll(filepath.Join(root, d), 0o755)
 	}
 	w := &world{bin: bin, root: root, cfg: cfg, r: lib.NewRng(cfg.Seed), keys: map[string]*funcKey{}}
 	if cfg.Lstrip {
-		os.MkdirAll(filepath.Join(root, "ws", w.projDir()), 0o755)
+		os.MkdirAll(filepath.Join(w.wsDir(), w.projDir()), 0o755)
 	}
 	return w
 }
+
+func (w *world) wsDir() string   { return filepath.Join(w.root, orDefault(w.cfg.WsName, "ws")) }
+func (w *world) metaDir() string { return filepath.Join(w.root, orDefault(w.cfg.MetaName, "meta")) }
 
 func (w *world) rel(p string) string { return strings.ReplaceAll(p, w.root, "$ROOT") }
 
@@ -430,6 +513,7 @@ func (w *world) cli(cwd string, argv ...string) Invocation {
 	defer cancel()
 	cmd := exec.CommandContext(ctx, w.bin, argv...)
 	cmd.Dir = cwd
+	cmd.Env = append(os.Environ(), "PWD="+cwd) // a shell that entered cwd (possibly through a symlink)
 	var so, se bytes.Buffer
 	cmd.Stdout, cmd.Stderr = &so, &se
 	err := cmd.Run()
@@ -648,7 +732,14 @@ func (w *world) commonOpts(s StepCfg) []string {
 		o = append(o, "--use-dsse")
 	}
 	if w.cfg.MetaDir {
-		o = append(o, "-d", "../meta")
+		d := "../" + orDefault(w.cfg.MetaName, "meta")
+		if w.cfg.AbsPaths {
+			d = w.metaDir()
+		}
+		if w.cfg.TrailingSlash {
+			d += "/"
+		}
+		o = append(o, "-d", d)
 	}
 	if w.cfg.Lstrip {
 		o = append(o, w.flag("l", "lstrip-paths", w.prefix())...)
@@ -782,6 +873,21 @@ func loaderFinds(dir, step, keyid string) bool {
 	st := intoto.Step{Type: "step"}
 	st.Name = step
 	l := intoto.Layout{Steps: []intoto.Step{st}}
+	if strings.ContainsAny(dir, "[*?\\") {
+		// the library reads the directory argument as part of the glob pattern (documented reading):
+		// look at the same files in a directory with a plain name
+		plain, err := os.MkdirTemp(filepath.Join(lib.KeysDir(), ".."), "c20-loader-")
+		if err != nil {
+			panic(err)
+		}
+		defer os.RemoveAll(plain)
+		for f := range listDir(dir) {
+			if strings.HasSuffix(f, ".link") {
+				copyFile(filepath.Join(dir, f), filepath.Join(plain, f))
+			}
+		}
+		dir = plain
+	}
 	var found bool
 	lib.Recover(func() string {
 		m, err := intoto.LoadLinksForLayout(l, dir)
@@ -798,7 +904,7 @@ func loaderFinds(dir, step, keyid string) bool {
 // more and records one more product, so the second link is the shorter document); [rerun]: this is
 // the second one, overwriting the first link.
 func (w *world) runStep(i int, s StepCfg, k *funcKey, noisy, rerun bool) {
-	ws := filepath.Join(w.root, "ws")
+	ws := w.wsDir()
 	kargs := []string{"-n", s.Name, "-k", k.keyFile}
 	if k.certFile != "" {
 		kargs = append(kargs, "-c", k.certFile)
@@ -1063,9 +1169,9 @@ func (w *world) runAll() (cases []lib.Case) {
 	}()
 	cfg := w.cfg
 	if cfg.MetaDir {
-		w.linkDir = filepath.Join(w.root, "meta")
+		w.linkDir = w.metaDir()
 	} else {
-		w.linkDir = filepath.Join(w.root, "ws")
+		w.linkDir = w.wsDir()
 	}
 	if cfg.Odd && !cfg.DirMode {
 		// decoys: the pieces a comma-separated reading of the names would pick up
@@ -1074,7 +1180,7 @@ func (w *world) runAll() (cases []lib.Case) {
 				continue
 			}
 			for _, piece := range strings.Split(nm, ",") {
-				p := filepath.Join(w.root, "ws", filepath.FromSlash(w.prefix()), piece)
+				p := filepath.Join(w.wsDir(), filepath.FromSlash(w.prefix()), piece)
 				if _, err := os.Stat(p); err != nil {
 					writeFile(p, []byte("decoy\n"))
 				}
@@ -1105,7 +1211,7 @@ func (w *world) runAll() (cases []lib.Case) {
 	final := filepath.Join(w.root, "final")
 	os.MkdirAll(final, 0o755)
 	n := len(cfg.Steps)
-	src := filepath.Join(w.root, "ws", filepath.FromSlash(w.prefix()))
+	src := filepath.Join(w.wsDir(), filepath.FromSlash(w.prefix()))
 	first := n
 	if cfg.DirMode {
 		first = 1
